@@ -105,15 +105,33 @@ def plan_c10(tier):
     )
 
 
-def plan_c12(tier):
+def plan_c11(tier):
     if tier == "thorough":
-        ws = sharded("bufmc", "c12r", "thorough", 32, ["rel", "dbg"], ["even"])
+        ws = sharded("bufmc", "c11", "thorough", 32, ["rel", "dbg"], ["even", "odd"])
     else:
-        ws = sharded("bufmc", "c12r", "quick", 16, ["rel"], ["even"])
+        ws = sharded("bufmc", "c11", "thorough", 32, ["rel"], ["even"])
     return dict(
         workers=ws, level="model_checking", distinct_is_max=False,
-        rule="the adapter trees of C09 with Reader roots (io::Read::read with every dst size, BufRead::fill_buf/consume) and Take roots with set_limit in mid-stream; after every operation limit(), get_ref(), "
-             "first_ref/last_ref and every inner buffer's position are compared with a structural model by recursion over the typed tree",
+        rule="explicit-state exploration of the real crate: every BufMut target tree (Vec and BytesMut in 3 representations at several len/spare levels, &mut [u8] and &mut [MaybeUninit<u8>] of sizes 0..=10,16,17,20 carved "
+             "out of a guarded arena, Limit with limits {0,1,c-1,c,c+1,MAX}, Chain with the boundary at every position 0..=17 incl. 3-way chains and growable first halves, &mut, Box<dyn BufMut>) x write sequences: the complete "
+             "put table (32 fixed putters x 25 msb/lsb edge values, 6 variable putters x nbytes 0..=9) from the initial state and after a positioning write, put_slice/put_bytes/put(Buf in 6 source shapes) with sizes "
+             "{0,1,2,3,first-1,first,first+1,rem,rem+1}, up to depth 3; after every write contents, remaining_mut, chunk_mut and the arena guard bytes are compared with the model, and each typed value is read back with the matching getter. "
+             "distinct_nontrivial = distinct target trees",
+        bounds="depth 3 for sized writes, typed writes at depth 1-2; quick = rel profile, even parity; thorough = rel+dbg x even+odd",
+        assumptions=["independent encoder in the harness is the reference", "fixed-size targets live in a harness arena with 0xEE guards; heap targets are guarded by the oracle allocator's canaries"],
+    )
+
+
+def plan_c12(tier):
+    if tier == "thorough":
+        ws = sharded("bufmc", "c12r", "thorough", 32, ["rel", "dbg"], ["even"]) + sharded("bufmc", "c12w", "thorough", 16, ["rel", "dbg"], ["even"])
+    else:
+        ws = sharded("bufmc", "c12r", "quick", 16, ["rel"], ["even"]) + sharded("bufmc", "c12w", "thorough", 16, ["rel"], ["even"])
+    return dict(
+        workers=ws, level="model_checking", distinct_is_max=False,
+        rule="read side: the adapter trees of C09 with Reader roots (io::Read::read with every dst size, BufRead::fill_buf/consume) and Take roots with set_limit in mid-stream; write side: the target trees of C11 with "
+             "Writer roots (io::Write::write with every src size, flush) and Limit roots with set_limit in mid-stream; after every operation limit(), get_ref(), "
+             "first_ref/last_ref and every inner buffer's position/contents are compared with a structural model by recursion over the typed tree",
         bounds="as C09",
         assumptions=["structural model: Take(limit, inner), Chain(a, b), leaves with their remaining bytes"],
     )
@@ -122,6 +140,7 @@ def plan_c12(tier):
 PLANS = {
     "C09": plan_c09,
     "C10": plan_c10,
+    "C11": plan_c11,
     "C12": plan_c12,
     "C14": plan_c14,
     "C15": plan_c15,
